@@ -18,6 +18,9 @@ CHECKS = {
  "C02": ("exploration", "independent re-tally of every observed attestation + admission/signer monitor on generated vote schedules",
          "Held on the executions observed: at each observation the voter set is re-tallied from the store with exact integer arithmetic; vote admission and required signers are checked per vote; total power vs online power after every operation.",
          "Power = recorded delegate amount / power reduction; signers resolved with the app codec.", "4 C02"),
+ "C03": ("exploration", "stateless ClaimHash injectivity sweep + twin-branch quorum executions compared by full store diff",
+         "Held on the pairs and quorums explored: every listed field of all six claim types is varied (plus separator re-splits of free-form fields) and hashes compared; each (type, field, voter position) is also run as a real quorum on a branched state and compared byte-for-byte with the all-honest branch.",
+         "Full multistore dumps of two copy-on-write branches; claims built in-process.", "4 C03"),
 }
 NOT_YET = {}
 def load_props():
